@@ -8,5 +8,5 @@ mkdir -p build evidence replays harness/bin
 if [ -x extract/run.sh ]; then ./extract/run.sh || true; fi
 (cd lean && lake build Shisui Driver drv 2>&1 | tail -3)
 cp /repo/go.sum harness/go.sum
-(cd harness && go build -tags verif -o bin/harness . )
+(cd harness && go build -tags verif -o bin/harness . && GOEXPERIMENT=synctest go build -tags verif -o bin/harness-synctest . )
 echo setup done
